@@ -340,8 +340,10 @@ def decodeNode (j : J) : R NJ := decodeNodeF (j.depth + 1) j
 /-- `extensions.ExtMap[name].IsMethod` (regenerated table) -/
 def extIsMethod (name : String) : Bool := Facts.extMap.any (fun x => x.1 == name && x.2.2)
 
-/-- combine the outcomes of the entries of a `Record` literal (Go iterates the map in random order and stops
-    at the first error or nil entry) -/
+/-- combine the outcomes of the entries of a `Record` literal.  Go visits the entries in key order and stops at the
+    first error or nil entry (since `fix: decode the entries of a JSON Record in key order`; it used to range over the
+    map).  The model only distinguishes the error CLASSES, so it does not need to know which failing entry is first:
+    a mix of `reject` and `unmodelled` entries is reported as `unmodelled`. -/
 def errOf (r : String × R Expr) : Option JErr := match r.2 with | .error e => some e | .ok _ => none
 def okOf (r : String × R Expr) : Option (String × Expr) := match r.2 with | .ok e => some (r.1, e) | .error _ => none
 
@@ -506,8 +508,8 @@ def decodeConds (kvs : List (String × J)) : R (List (String × NJ)) :=
 def effectOf (s : String) : R Effect :=
   if s == "permit" then .ok .permit else if s == "forbid" then .ok .forbid else .error .reject
 
-/-- `Policy.UnmarshalJSON`.  Annotations come out of a Go map in random order; the model returns them in the
-    key order of the tree (C09 compares annotations by key). -/
+/-- `Policy.UnmarshalJSON`.  Annotations are added in key order (since `fix: decode policy annotations from JSON in key
+    order`; the loop used to range over the Go map): the model returns them in the key order of the tree. -/
 def fromJ (j : J) : R Policy :=
   match j with
   | .obj kvs => do
